@@ -86,6 +86,8 @@ class C11:
 
         def op_a(t, depth=0):
             r = rng.random()
+            if depth == 0 and cfg["record"] and r < 0.08:
+                return ["drain"]  # export_text(clear=True) while the other threads print
             if r < 0.55 or depth >= 2:
                 return simple(t)
             if r < 0.8 or depth > 0:
@@ -203,12 +205,13 @@ class Multi:
         self.viol = []
         self.expected = {}  # thread -> list of payload strings that must reach the file, in order
         self.captures = []  # (thread, expected string, got string)
+        self.drained = []  # token lists returned by clearing exports taken while threads print
         self.captured_tokens = set()
         self.n = len(case["threads"])
         self.done = 0
         self.stdout_sentinel, self.stderr_sentinel = sys.stdout, sys.stderr
         self.probes = {"writes": 0, "captures": 0, "blocks": 0, "hooked_prints": 0, "print_in_capture_while_live": 0,
-                       "overlap_explained": 0, "phantom_explained": 0, "extra_starts": 0, "extra_stops": 0, "post_probe_ok": 0, "record_compared": 0}
+                       "overlap_explained": 0, "phantom_explained": 0, "draining_exports": 0, "extra_starts": 0, "extra_stops": 0, "post_probe_ok": 0, "record_compared": 0}
         self.oracle = None
         self.display = None
         self.started = False
@@ -448,6 +451,9 @@ class Multi:
             self.captures.append((t, exp, got))
             if o is not None:
                 o.end_op()
+        elif k == "drain":
+            self.probes["draining_exports"] += 1
+            self.drained.append(TOKEN.findall(self.console.export_text(clear=True)))
         elif k == "dstart":
             self.probes["extra_starts"] += 1
             if o.tracker:
@@ -619,6 +625,23 @@ class Multi:
         rec = self.console.export_text(clear=False)
         file_tokens = TOKEN.findall(term.visible_text("".join(w[2] for w in writes)))
         rec_tokens = [x for x in TOKEN.findall(rec) if x not in self.captured_tokens]
+        if self.drained:
+            # clearing exports were taken along the way: every piece of output must be in exactly
+            # one of them (or in what is left now), each export in file order
+            pos = {x: i for i, x in enumerate(file_tokens)}
+            parts = self.drained + [rec_tokens]
+            got = [x for part in parts for x in part if x not in self.captured_tokens]
+            if sorted(got) != sorted(file_tokens):
+                lost = [x for x in file_tokens if x not in got]
+                dup = sorted(set(x for x in got if got.count(x) > 1))
+                self._v("record-order", "record-lost-or-duplicated", "clearing exports taken while threads print do not add up to the file: lost %r, duplicated %r" % (lost[:10], dup[:10]))
+                return
+            for part in parts:
+                idx = [pos[x] for x in part if x in pos]
+                if idx != sorted(idx):
+                    self._v("record-order", "record-order", "an export lists output in another order than the file: %r" % part[:12])
+                    return
+            return
         if rec_tokens != file_tokens:
             self._v("record-order", "record-order", "record order %r differs from file order %r" % (rec_tokens[:30], file_tokens[:30]))
 
